@@ -4,8 +4,10 @@ Per case a fresh AdaptationManager over a small generated type hierarchy
 (single / multiple inheritance, ABC registration, traits Interfaces with
 @provides) and <= 8 offers (duplicates, cycles, register_provides, identity
 factories, Adapter / PurePythonAdapter classes, conditional factories that
-return None as a pure function of the adaptee's recorded chain, lazily
-imported string protocols).
+return None as a pure function of the adaptee's recorded chain or of a
+per-object flag, lazily imported string protocols).  All queries of a case run
+as one shuffled history on the same manager (several objects per type when
+factories depend on the object; optional late ABC registration in between).
 
 Oracle: brute-force enumeration of every sequence of distinct applicable
 offers whose factories all succeed (run on a pure *model* of the factories),
@@ -42,19 +44,24 @@ META = {
     "rule": ("case = one generated offer graph: 2-6 uniquely named classes (flavours: plain "
              "single/multiple inheritance; ABCs with register; traits Interfaces with @provides; "
              "lazily imported string protocols; each either with step-counting metaclasses or "
-             "uninstrumented under a call-counting profiler), <= 8 offers of 12 kinds (always, "
-             "never, 5 chain-conditional, instrumented identity, register_provides, conditional "
+             "uninstrumented under a call-counting profiler), <= 8 offers of 14 kinds (always, "
+             "never, 5 chain-conditional, 2 conditional on a per-object flag of the adaptee, instrumented identity, register_provides, conditional "
              "identity, PurePythonAdapter / Adapter classes) laid out by a strategy (random, chain "
              "with refused / base-type shortcuts, offers from several ancestors, cycle; one graph "
              "in ten belongs to the stratum 'a class providing several protocols, offers from "
              "several of them to one target'), registered through "
-             "register_offer / register_factory / register_provides. Every (source class, target "
-             "class) pair is queried through adapt / adapt+default / supports_protocol / the global "
+             "register_offer / register_factory / register_provides. When a factory depends on the "
+             "per-object flag, 2-3 objects with different flags are created per source class; all "
+             "(object, target class) queries of a graph run in one shuffled order on the SAME manager "
+             "(so objects of one type with different best chains follow each other), in 30% of the "
+             "graphs with an ABC a late ABC.register() happens between two queries (the enumeration "
+             "is recomputed from there). Every (object, target "
+             "class) query goes through adapt / adapt+default / supports_protocol / the global "
              "functions and through Supports, AdaptsTo, Instance(adapt=yes|default), List(Supports), "
              "Union(Supports, Int) assignment and the Python-level validate, each judged against the "
              "brute-force enumeration. distinct_nontrivial counts distinct (flavour, route, status, "
              "min offers, visible length, number of minimal candidates, identity-in-path, failing "
-             "candidate present, specificity relevant, outcome) signatures of judged results other "
+             "candidate present, specificity relevant, outcome, history class) signatures of judged results other "
              "than the trivial 'already provides' ones."),
     "phases": [{"name": "main", "flavour": "P", "shards": 16}],
     "gates": {
@@ -65,7 +72,14 @@ META = {
                   "failing_candidate_pairs": 900, "identity_in_min_path": 1500,
                   "trait_assignments": 45000, "trait_errors_expected": 15000,
                   "shadow_checks": 7500, "cyclic_graph_failures": 4500,
-                  "graphs_uninstrumented_classes_profiled": 90, "offers_lazy_strings": 300},
+                  "graphs_uninstrumented_classes_profiled": 90, "offers_lazy_strings": 300,
+                  "graphs_with_object_dependent_factories": 450,
+                  "history_repeat_queries_other_object_same_type": 15000,
+                  "history_admissible_set_differs_from_previous_object": 1400,
+                  "history_previous_chain_works_here_but_is_not_minimal": 55,
+                  "history_single_step_candidates_differ_from_previous_object": 250,
+                  "late_abc_registrations": 140,
+                  "queries_after_late_abc_registration": 3000},
         "thorough": {"evaluations": 2700000, "adapt_results_judged": 1350000, "chains_found": 135000,
                      "chains_len2plus": 22500, "chains_len3plus": 3300, "failures_checked": 195000,
                      "provides_checked": 225000, "specificity_checked": 18000,
@@ -73,12 +87,22 @@ META = {
                      "failing_candidate_pairs": 27000, "identity_in_min_path": 45000,
                      "trait_assignments": 1350000, "trait_errors_expected": 450000,
                      "shadow_checks": 225000, "cyclic_graph_failures": 135000,
-                     "graphs_uninstrumented_classes_profiled": 2700, "offers_lazy_strings": 9000},
+                     "graphs_uninstrumented_classes_profiled": 2700, "offers_lazy_strings": 9000,
+                     "graphs_with_object_dependent_factories": 13500,
+                     "history_repeat_queries_other_object_same_type": 450000,
+                     "history_admissible_set_differs_from_previous_object": 42000,
+                     "history_previous_chain_works_here_but_is_not_minimal": 1650,
+                     "history_single_step_candidates_differ_from_previous_object": 7500,
+                     "late_abc_registrations": 4200,
+                     "queries_after_late_abc_registration": 90000},
     },
     "assumptions": [
         "issubclass is the 'provides' relation (as AdaptationManager.provides_protocol documents)",
-        "factories are deterministic functions of the adaptee's recorded chain, so a chain whose "
-        "prefix fails fails, and the model of the factories used by the enumeration is exact",
+        "factories are deterministic functions of the adaptee's recorded chain and of a per-object "
+        "flag fixed at creation, so a chain whose prefix fails fails, and the model of the factories "
+        "used by the enumeration (evaluated for that very object) is exact",
+        "adapt is judged against the hierarchy and offers as they are at the time of the call, "
+        "whatever was adapted before on the same manager",
         "class names are unique within a case (offers are keyed by module.name by design)",
         "path length = number of offers used, null (register_provides) adapters included",
         "the single-step specificity rule is judged only on hierarchies where issubclass is "
@@ -205,7 +229,9 @@ def base_of(x):
 
 
 IDENTITY_KINDS = ("identity", "provides", "idraw")
+FLAG_KINDS = ("flagset", "flagclear")      # depend on a per-OBJECT attribute of the adaptee
 KINDS = (["always"] * 40 + ["never"] * 8 + ["even"] * 6 + ["odd"] * 6 + ["raw"] * 6 +
+         ["flagset"] * 8 + ["flagclear"] * 8 +
          ["short"] * 5 + ["notafter"] * 5 + ["identity"] * 6 + ["provides"] * 8 +
          ["idraw"] * 3 + ["pyadapter"] * 5 + ["traitsadapter"] * 2)
 
@@ -218,10 +244,15 @@ class Off:
         self.frm, self.to, self.kind, self.param = frm, to, kind, param
         self.how = None
 
-    def model(self, chain):
-        """Pure model of the factory on the adaptee's recorded chain:
-        None (refuses), the same chain (identity), or the extended chain."""
+    def model(self, chain, flag=0):
+        """Pure model of the factory on the adaptee's recorded chain and on the
+        per-object flag of the original adaptee: None (refuses), the same chain
+        (identity), or the extended chain."""
         k = self.kind
+        if k == "flagset" and not flag & self.param:
+            return None
+        if k == "flagclear" and flag & self.param:
+            return None
         if k == "identity" or k == "provides":
             return chain
         if k == "idraw":
@@ -265,7 +296,7 @@ def real_factory(off):
     def factory(adaptee):
         tick()
         chain = chain_of(adaptee)
-        new = off.model(chain)
+        new = off.model(chain, getattr(base_of(adaptee), "_c17_flag", 0))
         if new is None:
             return None
         if new is chain:
@@ -410,7 +441,8 @@ def gen_offers(rng, classes, sub, nmax, force_specific=False):
             # a shortcut that is refused (path discarded) or conditional
             i = rng.randrange(len(perm) - 2)
             add(perm[i], perm[rng.randrange(i + 2, len(perm))],
-                rng.choice(("never", "raw", "odd", "even", "notafter", "idraw", "always")))
+                rng.choice(("never", "raw", "odd", "even", "notafter", "idraw", "always",
+                            "flagset", "flagclear", "flagset", "flagclear")))
         if len(perm) >= 3 and rng.random() < 0.6:
             # a shorter way that starts at a *base type* of a chain member
             # (fewer offers, more steps up the hierarchy)
@@ -421,7 +453,8 @@ def gen_offers(rng, classes, sub, nmax, force_specific=False):
                 # land before the end of the chain when possible, so that the
                 # short way still needs further offers
                 j = rng.randrange(i + 2, max(i + 3, len(perm) - 1))
-                add(a, perm[j], rng.choice(("always", "always", "pyadapter", "provides")))
+                add(a, perm[j], rng.choice(("always", "always", "pyadapter", "provides", "flagset",
+                                                "flagclear")))
     if strategy in ("specific", "mixed"):
         s = max(classes, key=lambda c: (sum(1 for d in classes if sub(c, d)), rng.random()))
         anc = [d for d in classes if sub(s, d)]
@@ -430,7 +463,8 @@ def gen_offers(rng, classes, sub, nmax, force_specific=False):
         t = rng.choice([d for d in classes if not sub(s, d)] or classes)
         for a in rng.sample(anc, min(len(anc), 5 if force_specific else rng.choice((2, 3, 3, 4, 5)))):
             add(a, t, rng.choice(("always", "always", "always", "always", "pyadapter", "raw",
-                                  "provides", "never", "identity")))
+                                  "provides", "never", "identity", "flagset", "flagclear",
+                                  "flagset")))
         if rng.random() < 0.6:
             add(rng.choice(classes), t, "always")
     if strategy in ("cycle", "mixed") and len(classes) >= 2:
@@ -457,6 +491,8 @@ def finish_offers(rng, offers):
             o.param = rng.randint(1, 2)
         elif o.kind == "notafter":
             o.param = rng.randrange(len(offers))
+        elif o.kind in FLAG_KINDS and o.param is None:
+            o.param = rng.choice((1, 2))
 
 
 class _Cap(Exception):
@@ -480,7 +516,7 @@ def count_paths(src, offers, sub, cap):
     return n[0]
 
 
-def enumerate_chains(src, offers, sub):
+def enumerate_chains(src, offers, sub, flag=0):
     """Brute force: every sequence of distinct offers, each applicable to the
     protocol reached so far, whose (model) factories all succeed.
     -> (succ [(seq, chain, to_protocol)], fail [(seq, to_protocol)])."""
@@ -490,7 +526,7 @@ def enumerate_chains(src, offers, sub):
         for o in offers:
             if used >> o.idx & 1 or not sub(proto, o.frm):
                 continue
-            c2 = o.model(chain)
+            c2 = o.model(chain, flag)
             s2 = seq + (o.idx,)
             if c2 is None:
                 fail.append((s2, o.to))
@@ -503,11 +539,12 @@ def enumerate_chains(src, offers, sub):
 
 class Expect:
     __slots__ = ("status", "L", "minset", "allset", "singles", "nmin", "ident_in_min",
-                 "failing_candidate", "spec_relevant", "order_class", "spec_not_judged")
+                 "failing_candidate", "spec_relevant", "order_class", "spec_not_judged", "flag")
 
 
-def analyse(src, tgt, offers, succ, fail, sub, transitive=True):
+def analyse(src, tgt, offers, succ, fail, sub, transitive=True, flag=0):
     e = Expect()
+    e.flag = flag
     e.spec_not_judged = False
     e.L = 0
     e.minset = e.allset = frozenset()
@@ -591,7 +628,7 @@ def judge_success(e, d, offers, sub):
     # non-zero only when null adapters make a sequence of more offers cheaper
     INFO["extra_adapter_objects"] = len(ch) - min(len(c) for c in e.allset)
     if e.L == 1 and e.spec_relevant:
-        cands = [o for o in e.singles if o.model(()) == ch]
+        cands = [o for o in e.singles if o.model((), e.flag) == ch]
         if cands and all(any(o2 is not c and sub(o2.frm, c.frm) and not sub(c.frm, o2.frm)
                              for o2 in e.singles) for c in cands):
             return "specificity/base-type-offer-chosen/" + e.order_class
@@ -832,13 +869,62 @@ def run_case(ctx, gi):
         sample_queries = []
         cyclic = any(a is not b and sub(a.to, b.frm) and sub(b.to, a.frm) for a in offers
                      for b in offers) or any(sub(a.to, a.frm) for a in offers)
+        # ---- objects: several per source type when some factory depends on the
+        # per-object flag, so that which chain is shortest / most specific
+        # differs between objects of one type adapted on the SAME manager
+        flagged = any(o.kind in FLAG_KINDS for o in offers)
+        if flagged:
+            ctx.count("graphs_with_object_dependent_factories")
+        # late ABC registration between two calls (the hierarchy the search
+        # has to honour is the one at the time of the call); then also several
+        # objects per type, so that a (type, target) is queried before and after
+        late = rng.random() < 0.3 and any(isinstance(c, abc.ABCMeta) for c in classes)
+        objs = []                                   # (src, obj, flag)
         for src in classes:
-            try:
-                obj = src()
-            except TypeError:
-                ctx.count("uninstantiable_sources")
-                continue
-            succ, fail = enumerate_chains(src, offers, sub)
+            flags = rng.sample(range(4), rng.choice((2, 3, 3))) if flagged else [0, 0] if late else [0]
+            for f in flags:
+                try:
+                    obj = src()
+                    obj._c17_flag = f
+                except (TypeError, AttributeError):
+                    ctx.count("uninstantiable_sources")
+                    break
+                objs.append((src, obj, f))
+        queries = [(oi, ti) for oi in range(len(objs)) for ti in range(len(classes))]
+        rng.shuffle(queries)                        # one interleaved history per manager
+        late_at = rng.randrange(len(queries)) if late and queries else -1
+        enum_cache = {}
+        last_seen = {}                              # (src, ti) -> (oi, status, minset, observed chain)
+        for qi, (oi, ti) in enumerate(queries):
+            if qi == late_at:
+                pairs = [(c, o) for c in classes if isinstance(c, abc.ABCMeta) for o in classes
+                         if o is not c and not sub(o, c) and not sub(c, o)]
+                if pairs:
+                    c, o = rng.choice(pairs)
+                    try:
+                        c.register(o)
+                    except (RuntimeError, TypeError):
+                        pass
+                    else:
+                        cache.clear()
+                        enum_cache.clear()
+                        desc["late_registration"] = {"before_query": qi, "abc": c.__name__,
+                                                     "registered": o.__name__}
+                        transitive = all(sub(a, c3) for a in classes for b in classes if sub(a, b)
+                                         for c3 in classes if sub(b, c3))
+                        try:
+                            npaths = {c2: count_paths(c2, offers, sub, 4 * PATH_CAP) for c2 in classes}
+                        except _Cap:
+                            ctx.count("late_registration_made_graph_too_large")
+                            break
+                        cyclic = any(a is not b and sub(a.to, b.frm) and sub(b.to, a.frm) for a in offers
+                                     for b in offers) or any(sub(a.to, a.frm) for a in offers)
+                        ctx.count("late_abc_registrations")
+            src, obj, flag = objs[oi]
+            tgt = classes[ti]
+            if (src, flag) not in enum_cache:
+                enum_cache[(src, flag)] = enumerate_chains(src, offers, sub, flag)
+            succ, fail = enum_cache[(src, flag)]
             np_ = npaths[src]
             # generous budget, proportional to the number of simple applicable
             # sequences a complete search has to visit.  Calibration on the
@@ -846,81 +932,122 @@ def run_case(ctx, gi):
             # calls per such sequence, i.e. >= 100x headroom (the counter
             # calls_using_over_5pct_of_step_budget stays 0)
             limit = (20000 + 5000 * np_) if profiled else (5000 + 1500 * np_)
-            for ti, tgt in enumerate(classes):
-                e = analyse(src, tgt, offers, succ, fail, sub, transitive)
-                if e.spec_not_judged:
-                    ctx.count("specificity_not_judged_nontransitive_issubclass")
+            e = analyse(src, tgt, offers, succ, fail, sub, transitive, flag)
+            if e.spec_not_judged:
+                ctx.count("specificity_not_judged_nontransitive_issubclass")
+            if flagged or late:
+                routes = [("m", "adapt"), ("m", rng.choice(MANAGER_ROUTES[1:]))]
+                routes += [("t", r) for r in rng.sample(TRAIT_ROUTES, 2)]
+                rng.shuffle(routes)                 # traits may come first in the history
+            else:
                 routes = [("m", "adapt"), ("m", rng.choice(MANAGER_ROUTES[1:4]))]
                 routes += [("m", r) for r in rng.sample(MANAGER_ROUTES[4:], 1)]
                 routes += [("t", r) for r in rng.sample(TRAIT_ROUTES, 3)]
-                if e.status == "provides":
-                    ctx.count("provides_checked")
-                    routes = routes[:2] + routes[3:5]
-                elif e.status == "chain":
-                    ctx.count("chains_found")
-                    if e.L >= 2:
-                        ctx.count("chains_len2plus")
-                    if e.L >= 3:
-                        ctx.count("chains_len3plus")
-                    if e.ident_in_min:
-                        ctx.count("identity_in_min_path")
-                    if e.spec_relevant:
-                        ctx.count("specificity_checked")
-                        if e.order_class.startswith("incomparable"):
-                            ctx.count("specificity_checked_with_incomparable_sources")
+            if e.status == "provides":
+                ctx.count("provides_checked")
+                routes = routes[:2] + routes[3:5]
+            elif e.status == "chain":
+                ctx.count("chains_found")
+                if e.L >= 2:
+                    ctx.count("chains_len2plus")
+                if e.L >= 3:
+                    ctx.count("chains_len3plus")
+                if e.ident_in_min:
+                    ctx.count("identity_in_min_path")
+                if e.spec_relevant:
+                    ctx.count("specificity_checked")
+                    if e.order_class.startswith("incomparable"):
+                        ctx.count("specificity_checked_with_incomparable_sources")
+            else:
+                ctx.count("failures_checked")
+                if cyclic:
+                    ctx.count("cyclic_graph_failures")
+            if e.failing_candidate:
+                ctx.count("failing_candidate_pairs")
+            ctx.count("pairs_min_offers_%d" % min(e.L, 6))
+            # history features (what an implementation that remembers anything
+            # per type would get wrong)
+            prev = last_seen.get((src, ti))
+            hist = "first"
+            if prev is not None:
+                hist = "repeat-same-object" if prev[0] == oi else "repeat-other-object"
+                if prev[0] != oi:
+                    ctx.count("history_repeat_queries_other_object_same_type")
+                    if prev[1] != e.status or prev[2] != e.minset:
+                        hist = "repeat-other-object-admissible-set-changed"
+                        ctx.count("history_admissible_set_differs_from_previous_object")
+                    if (e.status == "chain" and prev[3] is not None and prev[3] in e.allset
+                            and prev[3] not in e.minset):
+                        hist = "repeat-previous-chain-works-but-is-longer"
+                        ctx.count("history_previous_chain_works_here_but_is_not_minimal")
+                    if (e.status == "chain" and e.L == 1 and e.spec_relevant and prev[3] is not None
+                            and prev[3] in e.minset and prev[1] == "chain" and prev[2] != e.minset):
+                        ctx.count("history_single_step_candidates_differ_from_previous_object")
+            if "late_registration" in desc and qi >= late_at:
+                ctx.count("queries_after_late_abc_registration")
+            if e.status == "chain" and len(sample_queries) < 3 and (e.L > 1 or e.failing_candidate):
+                sample_queries.append({"source": src.__name__, "object_flag": flag, "target": tgt.__name__,
+                                       "min_offers": e.L, "admissible_visible_chains": sorted(e.minset),
+                                       "successful_sequences": len(e.allset), "history": hist})
+            observed_adapt = None
+            stop = False
+            for layer, route in routes:
+                INFO["last"] = None
+                if layer == "m":
+                    INFO["extra_adapter_objects"] = 0
+                    c, oc = check_manager_route(route, m, obj, tgt, e, offers, sub, limit, profiled)
+                    ctx.count("adapt_results_judged")
+                    if route == "adapt" and c is None and INFO["extra_adapter_objects"] > 0:
+                        ctx.count("info_min_offers_result_has_more_adapter_objects_than_a_longer_"
+                                  "sequence_through_null_adapters")
                 else:
-                    ctx.count("failures_checked")
-                    if cyclic:
-                        ctx.count("cyclic_graph_failures")
-                if e.failing_candidate:
-                    ctx.count("failing_candidate_pairs")
-                ctx.count("pairs_min_offers_%d" % min(e.L, 6))
-                if e.status == "chain" and len(sample_queries) < 3 and (e.L > 1 or e.failing_candidate):
-                    sample_queries.append({"source": src.__name__, "target": tgt.__name__,
-                                           "min_offers": e.L, "admissible_visible_chains": sorted(e.minset),
-                                           "successful_sequences": len(e.allset)})
-                for layer, route in routes:
-                    INFO["last"] = None
-                    if layer == "m":
-                        INFO["extra_adapter_objects"] = 0
-                        c, oc = check_manager_route(route, m, obj, tgt, e, offers, sub, limit, profiled)
-                        ctx.count("adapt_results_judged")
-                        if route == "adapt" and c is None and INFO["extra_adapter_objects"] > 0:
-                            ctx.count("info_min_offers_result_has_more_adapter_objects_than_a_longer_"
-                                      "sequence_through_null_adapters")
-                    else:
-                        c, oc = check_trait_route(route, h, ti, obj, e, offers, sub, limit, profiled, ctx)
-                        ctx.count("trait_assignments")
-                        if oc == "TraitError":
-                            ctx.count("trait_errors_expected" if c is None else "trait_errors_unexpected")
-                    ctx.ev()
-                    if ST.n * 20 > limit:
-                        ctx.count("calls_using_over_5pct_of_step_budget")
-                    if e.status != "provides" or c:
-                        ctx.sig(flavour, route, e.status, min(e.L, 5),
-                                min(len(next(iter(e.minset))), 5) if e.minset else -1,
-                                min(e.nmin, 3), e.ident_in_min, e.failing_candidate,
-                                e.spec_relevant, oc, bool(c))
-                    if c:
-                        key = ("manager/" if layer == "m" else "trait/%s/" % route) + c
-                        if layer == "m" and route.startswith("global"):
-                            key = "manager/global-function/" + c
-                        if c.startswith("nontermination"):
-                            key = c + ("/manager" if layer == "m" else "/trait")
-                        ctx.violation(
-                            key,
-                            "%s via %s: adapting an instance of %s to %s: expected status=%s min offers=%d "
-                            "admissible visible chains=%s; outcome class=%s observed=%s; offers=%s; classes=%s; "
-                            "virtual=%s"
-                            % (c, route, src.__name__, tgt.__name__, e.status, e.L,
-                               sorted(e.minset)[:6], oc, INFO["last"], desc["offers"], desc["classes"],
-                               desc["virtual"]),
-                            dict(desc, source=src.__name__, target=tgt.__name__, route=route,
-                                 status=e.status, min_offers=e.L, admissible=sorted(e.minset)[:10],
-                                 observed=INFO["last"]))
-                        if c.startswith("nontermination"):
-                            return
-                        break            # this pair's history stops at its first violation
+                    c, oc = check_trait_route(route, h, ti, obj, e, offers, sub, limit, profiled, ctx)
+                    ctx.count("trait_assignments")
+                    if oc == "TraitError":
+                        ctx.count("trait_errors_expected" if c is None else "trait_errors_unexpected")
+                ctx.ev()
+                if INFO["last"] is not None and INFO["last"][0] in ("obj", "ad"):
+                    observed_adapt = INFO["last"][1]
+                if ST.n * 20 > limit:
+                    ctx.count("calls_using_over_5pct_of_step_budget")
+                if e.status != "provides" or c:
+                    ctx.sig(flavour, route, e.status, min(e.L, 5),
+                            min(len(next(iter(e.minset))), 5) if e.minset else -1,
+                            min(e.nmin, 3), e.ident_in_min, e.failing_candidate,
+                            e.spec_relevant, oc, bool(c), hist)
+                if c:
+                    if route != "adapt" and not c.startswith("nontermination"):
+                        # same complaint from the manager itself for this very
+                        # object and target => it is the manager's defect, and is
+                        # reported under the manager's key (one key per defect)
+                        seen = INFO["last"]
+                        c2, _ = check_manager_route("adapt", m, obj, tgt, e, offers, sub, limit, profiled)
+                        INFO["last"] = seen
+                        if c2 == c:
+                            layer, route = "m", "adapt (first seen via %s)" % route
+                    key = ("manager/" if layer == "m" else "trait/%s/" % route) + c
+                    if layer == "m" and route.startswith("global"):
+                        key = "manager/global-function/" + c
+                    if c.startswith("nontermination"):
+                        key = c + ("/manager" if layer == "m" else "/trait")
+                    ctx.violation(
+                        key,
+                        "%s via %s: adapting an instance of %s (object flag %d, history: %s) to %s: expected "
+                        "status=%s min offers=%d admissible visible chains=%s; outcome class=%s observed=%s; "
+                        "offers=%s; classes=%s; virtual=%s; late registration=%s"
+                        % (c, route, src.__name__, flag, hist, tgt.__name__, e.status, e.L,
+                           sorted(e.minset)[:6], oc, INFO["last"], desc["offers"], desc["classes"],
+                           desc["virtual"], desc.get("late_registration")),
+                        dict(desc, source=src.__name__, object_flag=flag, history=hist, query_index=qi,
+                             target=tgt.__name__, route=route,
+                             status=e.status, min_offers=e.L, admissible=sorted(e.minset)[:10],
+                             observed=INFO["last"]))
+                    if c.startswith("nontermination"):
+                        stop = True
+                    break            # this query's history stops at its first violation
+            if stop:
+                return
+            last_seen[(src, ti)] = (oi, e.status, e.minset, observed_adapt)
         if sample_queries and len(ctx.samples) < 4:
             ctx.sample(dict(desc, queries=sample_queries))
     finally:
